@@ -774,6 +774,17 @@ func (c *Ctx) CYC(rule string) []report.Obligation {
 	// (5) include: the error return depends on an element of `included` equal to the loaded path, and `included` is threaded
 	if f := need("loader.ApplyInclude"); f != nil {
 		incl := f.Params[len(f.Params)-1]
+		// the membership test in its library form: slices.Contains(chain, path)
+		chainContains := func(v ssa.Value) (*ssa.Call, bool) {
+			call, ok := v.(*ssa.Call)
+			if !ok || !strings.HasSuffix(staticName(&call.Call), "slices.Contains") || len(call.Call.Args) != 2 {
+				return nil, false
+			}
+			if call.Call.Args[0] == ssa.Value(incl) || c.derivedFrom(call.Call.Args[0], incl, 4) {
+				return call, true
+			}
+			return nil, false
+		}
 		found := false
 		for _, r := range returnsOf(f) {
 			if !c.dyn.definitelyNonNil(retValue(r, 0), r.Block(), 2) {
@@ -789,6 +800,9 @@ func (c *Ctx) CYC(rule string) []report.Obligation {
 					if (c.elementOf(bo.X, incl) && c.isLoadedPath(bo.Y)) || (c.elementOf(bo.Y, incl) && c.isLoadedPath(bo.X)) {
 						found = true
 					}
+				}
+				if call, ok := chainContains(iff.Cond); ok && c.isLoadedPath(call.Call.Args[1]) {
+					found = true
 				}
 			}
 		}
@@ -817,6 +831,9 @@ func (c *Ctx) CYC(rule string) []report.Obligation {
 						if bo, ok := iff.Cond.(*ssa.BinOp); ok && bo.Op == token.EQL && (c.elementOf(bo.X, incl) || c.elementOf(bo.Y, incl)) {
 							isCycleRet = true
 						}
+						if _, ok := chainContains(iff.Cond); ok {
+							isCycleRet = true
+						}
 					}
 					if d.Branch.Dominates(r.Block()) {
 						work = append(work, d.Branch)
@@ -831,6 +848,9 @@ func (c *Ctx) CYC(rule string) []report.Obligation {
 				switch x := cd.(type) {
 				case *ssa.Call:
 					if x.Call.IsInvoke() && x.Call.Method.Name() == "Accept" {
+						continue
+					}
+					if _, ok := chainContains(x); ok {
 						continue
 					}
 				case *ssa.Extract: // range `ok`
@@ -1175,15 +1195,30 @@ func (c *Ctx) TERM(rule string, entry ...string) []report.Obligation {
 		if f.Syntax() == nil {
 			continue
 		}
+		var loops []*ast.ForStmt
 		ast.Inspect(f.Syntax(), func(n ast.Node) bool {
 			if fl, ok := n.(*ast.FuncLit); ok && fl != f.Syntax() {
 				return false // closures are functions of their own
 			}
 			if fs, ok := n.(*ast.ForStmt); ok && fs.Cond == nil {
-				out = append(out, bad(rule, "loop :: for{} in "+c.P.FuncID(f), c.P.Pos(fs.Pos()), "loop without a condition: termination rests on its internal breaks/returns"))
+				loops = append(loops, fs)
 			}
 			return true
 		})
+		if len(loops) == 0 {
+			continue
+		}
+		// a loop that consumes a string terminates: some loop-carried string / slice is strictly shorter on every
+		// way back to the loop head (the remainder after a found, non-empty separator; a re-slice from a low
+		// bound proved >= 1)
+		shrinks := c.shrinkingLoops(f)
+		for _, fs := range loops {
+			if shrinks[c.P.Fset.Position(fs.Body.Lbrace).Line] || shrinks[c.P.Fset.Position(fs.Pos()).Line] {
+				out = append(out, ok(rule, "loop :: for{} in "+c.P.FuncID(f), c.P.Pos(fs.Pos()), "a loop-carried string is strictly shorter on every back edge: the loop consumes its input"))
+				continue
+			}
+			out = append(out, bad(rule, "loop :: for{} in "+c.P.FuncID(f), c.P.Pos(fs.Pos()), "loop without a condition: termination rests on its internal breaks/returns"))
+		}
 	}
 	return out
 }
@@ -1424,4 +1459,88 @@ func (c *Ctx) errUntestedExit(call ssa.CallInstruction) string {
 		stack = append(stack, b.Succs...)
 	}
 	return ""
+}
+
+// shrinkingLoops returns the source lines of the loops of fn (line of the first instruction of the header block
+// and of the `for` statement) for which a ranking argument holds: a header phi of string or slice type whose
+// value on every back edge is (a) the remainder strings.Cut returns after a non-empty constant separator, on a
+// path where the separator was found, or (b) a re-slice `x[low:]` of the phi with low >= 1 provable.
+func (c *Ctx) shrinkingLoops(fn *ssa.Function) map[int]bool {
+	res := map[int]bool{}
+	var solver *idxSolver
+	for _, h := range fn.Blocks {
+		var back []int
+		for i, p := range h.Preds {
+			if h.Dominates(p) {
+				back = append(back, i)
+			}
+		}
+		if len(back) == 0 {
+			continue
+		}
+		ok := false
+		for _, in := range h.Instrs {
+			phi, isPhi := in.(*ssa.Phi)
+			if !isPhi {
+				break
+			}
+			switch phi.Type().Underlying().(type) {
+			case *types.Slice:
+			case *types.Basic:
+				if !isStringType(phi.Type()) {
+					continue
+				}
+			default:
+				continue
+			}
+			all := true
+			for _, i := range back {
+				e := phi.Edges[i]
+				pred := h.Preds[i]
+				shorter := false
+				switch x := e.(type) {
+				case *ssa.Extract:
+					if call, isCall := x.Tuple.(*ssa.Call); isCall && staticName(&call.Call) == "strings.Cut" && x.Index == 1 && call.Call.Args[0] == ssa.Value(phi) {
+						if sep, isC := prog.ConstString(call.Call.Args[1]); isC && sep != "" {
+							// the back edge is taken only when the separator was found
+							shorter = factHolds(pred, func(cond ssa.Value, val bool) bool {
+								ex, isEx := cond.(*ssa.Extract)
+								return isEx && ex.Tuple == ssa.Value(call) && ex.Index == 2 && val
+							})
+						}
+					}
+				case *ssa.Slice:
+					if x.X == ssa.Value(phi) && x.Low != nil && x.High == nil {
+						if solver == nil {
+							solver = c.newIdxSolver(fn)
+						}
+						solver.factsAt(pred)
+						shorter = solver.lb(vn(x.Low), zeroNode, -1)
+					}
+				}
+				if !shorter {
+					all = false
+				}
+			}
+			if all {
+				ok = true
+			}
+		}
+		if ok {
+			for _, in := range h.Instrs {
+				if in.Pos().IsValid() {
+					res[c.P.Fset.Position(in.Pos()).Line] = true
+				}
+			}
+			// the `for` keyword sits just before the first statement of the body
+			for _, in := range h.Instrs {
+				if _, isPhi := in.(*ssa.Phi); !isPhi && in.Pos().IsValid() {
+					l := c.P.Fset.Position(in.Pos()).Line
+					res[l-1] = true
+					break
+				}
+			}
+		}
+	}
+	return res
 }
